@@ -400,3 +400,152 @@ B('g14_path_joined_twice', ['C14'], 'R14.e',
   (ST, "            if not isinstance(path, (str, bytes)):\n                path = '/'.join(path)\n            full_path = find_file(self.search_paths, path)\n",
        "            url_path = '/'.join(path)\n            rel = '/'.join(url_path)\n"
        "            full_path = find_file(self.search_paths, rel)\n"))
+
+# ------------------------------------------------------------------ R14.g: the answer depends on this request and on the file system now
+_APP_ROUTES = "        routes = [('/<path*>', self.get_file_response)]\n"
+_FIND_CALL = ("            full_path = find_file(self.search_paths, path)\n"
+              "            if full_path is None:\n"
+              "                raise NotFound(is_breaking=False)\n")
+_SFR_BODY = ("        bfr = build_file_response\n"
+             "        resp = bfr(self.file_path,\n"
+             "                   cache_timeout=self.cache_timeout,\n"
+             "                   cached_modify_time=request.if_modified_since,\n"
+             "                   mimetype=self.mimetype,\n"
+             "                   file_wrapper=request.environ.get('wsgi.file_wrapper',\n"
+             "                                                    FileWrapper))\n"
+             "        return resp\n")
+_GUESS = "    if not mimetype:\n        mimetype, encoding = mimetypes.guess_type(path)\n"
+# a memo of where each path was found, kept on the application (found paths only)
+B('g14g_memo_on_app', ['C14'], 'R14.g',
+  (ST, _APP_ROUTES, "        self._located = {}\n" + _APP_ROUTES),
+  (ST, _FIND_CALL,
+   "            full_path = self._located.get(path)\n"
+   "            if full_path is None:\n"
+   "                full_path = find_file(self.search_paths, path)\n"
+   "                if full_path is None:\n"
+   "                    raise NotFound(is_breaking=False)\n"
+   "                self._located[path] = full_path\n"))
+# the same through a local alias of the application's dict and dict.setdefault
+B('g14g_memo_on_app_via_alias', ['C14'], 'R14.g',
+  (ST, _FIND_CALL,
+   "            memo = self.__dict__.setdefault('_located', {})\n"
+   "            if path not in memo:\n"
+   "                memo[path] = find_file(self.search_paths, path)\n"
+   "            full_path = memo[path]\n"
+   "            if full_path is None:\n"
+   "                raise NotFound(is_breaking=False)\n"))
+# module-level dict inside find_file
+B('g14g_memo_module_level', ['C14'], 'R14.g',
+  (ST, _FIND_DEF, "_FOUND = {}\n\n\n" + _FIND_DEF),
+  (ST, _LOOP,
+   "    key = (tuple(search_paths), rel_path)\n"
+   "    if key in _FOUND and isfile(_FOUND[key]):\n"
+   "        return _FOUND[key]\n"
+   "    for sr in search_paths:\n"
+   "        full_path = pjoin(sr, rel_path)\n"
+   "        if isfile(full_path):\n"
+   "            _FOUND[key] = full_path\n"
+   "            return full_path\n"
+   "    else:\n"
+   "        return None\n"))
+# the last lookup remembered in a global
+B('g14g_last_lookup_global', ['C14'], 'R14.g',
+  (ST, _FIND_DEF, "_LAST = (None, None)\n\n\n" + _FIND_DEF),
+  (ST, _FIND_CALL,
+   "            global _LAST\n"
+   "            if _LAST[0] == path:\n"
+   "                full_path = _LAST[1]\n"
+   "            else:\n"
+   "                full_path = find_file(self.search_paths, path)\n"
+   "            if full_path is None:\n"
+   "                raise NotFound(is_breaking=False)\n"
+   "            _LAST = (path, full_path)\n"))
+# the store handed to a public helper that writes into it
+B('g14g_memo_through_helper', ['C14'], 'R14.g',
+  (ST, _APP_ROUTES, "        self._located = {}\n" + _APP_ROUTES),
+  (ST, _CLS_ROUTE, "def remember(store, key, value):\n    store[key] = value\n    return value\n\n\n" + _CLS_ROUTE),
+  (ST, _FIND_CALL,
+   "            full_path = find_file(self.search_paths, path)\n"
+   "            if full_path is None:\n"
+   "                raise NotFound(is_breaking=False)\n"
+   "            remember(self._located, path, full_path)\n"))
+# functools.lru_cache on the mtime helper: Last-Modified / the 304 decision are those of the first request
+B('g14g_lru_cache_mtime', ['C14'], 'R14.g',
+  (ST, 'import mimetypes\n', 'import mimetypes\nimport functools\n'),
+  (ST, 'def get_file_mtime(path, rounding=0):\n', '@functools.lru_cache(maxsize=1024)\ndef get_file_mtime(path, rounding=0):\n'))
+B('g14g_lru_cache_rebinding', ['C14'], 'R14.g',
+  (ST, 'import mimetypes\n', 'import mimetypes\nfrom functools import lru_cache\n'),
+  (ST, _MT_FN, _MT_FN + "\n\nget_file_mtime = lru_cache(maxsize=None)(get_file_mtime)\n"))
+# a decorator of the package whose wrapper keeps results in a dict of the enclosing scope
+B('g14g_package_memo_decorator', ['C14'], 'R14.g',
+  (ST, _FIND_DEF,
+   "def _remembering(func):\n"
+   "    results = {}\n\n"
+   "    def wrapper(search_paths, path, limit_root=True):\n"
+   "        key = (tuple(search_paths), path, limit_root)\n"
+   "        if key not in results:\n"
+   "            results[key] = func(search_paths, path, limit_root)\n"
+   "        return results[key]\n"
+   "    return wrapper\n\n\n"
+   "@_remembering\n" + _FIND_DEF))
+# a mutable default argument as the memo (size of the file)
+B('g14g_default_argument_memo', ['C14'], 'R14.g',
+  (ST, 'def get_file_mtime(path, rounding=0):\n'
+       '    unix_mtime = round(os.path.getmtime(path), rounding)\n',
+       'def get_file_mtime(path, rounding=0, _known={}):\n'
+       '    if path not in _known:\n'
+       '        _known[path] = os.path.getmtime(path)\n'
+       '    unix_mtime = round(_known[path], rounding)\n'))
+# the guessed type remembered per path in an attribute of the function
+B('g14g_mimetype_memo_function_attribute', ['C14'], 'R14.g',
+  (ST, _GUESS,
+   "    if not mimetype:\n"
+   "        mimetype = build_file_response.guessed.get(path)\n"
+   "    if not mimetype:\n"
+   "        mimetype, encoding = mimetypes.guess_type(path)\n"
+   "        build_file_response.guessed[path] = mimetype\n"),
+  (ST, _CLS_ROUTE, "build_file_response.guessed = {}\n\n\n" + _CLS_ROUTE))
+# the single-file route keeps the response it built
+B('g14g_route_keeps_response', ['C14'], 'R14.g',
+  (ST, "        self.cache_timeout = cache_timeout\n        self.mimetype = mimetype\n\n    def get_file_response(self, request):\n",
+       "        self.cache_timeout = cache_timeout\n        self.mimetype = mimetype\n        self._headers = None\n\n    def get_file_response(self, request):\n"),
+  (ST, _SFR_BODY, _SFR_BODY.replace("        return resp\n",
+                                     "        if self._headers is None:\n"
+                                     "            self._headers = (resp.content_length, resp.last_modified)\n"
+                                     "        resp.content_length, resp.last_modified = self._headers\n"
+                                     "        return resp\n")))
+# the route serves a path taken from somewhere else than its configuration
+B('g14g_route_serves_other_path', ['C14'], 'R14.g',
+  (ST, "        resp = bfr(self.file_path,\n                   cache_timeout=self.cache_timeout,\n                   cached_modify_time=request.if_modified_since,\n                   mimetype=self.mimetype,",
+       "        resp = bfr(request.args.get('file', self.file_path),\n                   cache_timeout=self.cache_timeout,\n                   cached_modify_time=request.if_modified_since,\n                   mimetype=self.mimetype,"))
+# twins: per-request objects may be written freely; request-independent idempotent stores are no history
+T('g14g_found_path_initialised_none', ['C14'],
+  (ST, _LOOKUP,
+   "        full_path = None\n"
+   "        try:\n"
+   "            if not isinstance(path, (str, bytes)):\n"
+   "                path = '/'.join(path)\n"
+   "            full_path = find_file(self.search_paths, path)\n"
+   "        except (ValueError, IOError, OSError):\n"
+   "            raise Forbidden(is_breaking=False)\n"
+   "        if full_path is None:\n"
+   "            raise NotFound(is_breaking=False)\n"))
+T('g14g_writes_to_fresh_objects', ['C14'],
+  (ST, "    resp.content_type = mimetype\n", "    resp.content_type = mimetype\n    resp.headers['X-Content-Type-Options'] = 'nosniff'\n"),
+  (ST, "        bfr = build_file_response\n        resp = bfr(full_path,\n",
+       "        trail = {}\n        trail[path] = full_path\n        steps = []\n        steps.append(full_path)\n"
+       "        bfr = build_file_response\n        resp = bfr(full_path,\n"))
+T('g14g_constant_flag_and_counter', ['C14'],
+  (ST, _APP_ROUTES, "        self.requests_seen = 0\n        self.in_use = False\n" + _APP_ROUTES),
+  (ST, "        bfr = build_file_response\n        resp = bfr(full_path,\n", "        self.in_use = True\n        self.requests_seen += 1\n        bfr = build_file_response\n        resp = bfr(full_path,\n"))
+T('g14g_neutral_decorators', ['C14'],
+  (ST, 'from datetime import datetime\n', 'from datetime import datetime\nfrom contextlib import contextmanager\n'),
+  (ST, _BFR_DEF,
+   "@contextmanager\n"
+   "def _as_forbidden():\n"
+   "    try:\n"
+   "        yield\n"
+   "    except (ValueError, IOError, OSError):\n"
+   "        raise Forbidden(is_breaking=False)\n\n\n" + _BFR_DEF),
+  (ST, "        try:\n            mtime = get_file_mtime(path)\n        except (ValueError, IOError, OSError):  # TODO: winnow this down\n            raise Forbidden(is_breaking=False)\n",
+       "        with _as_forbidden():\n            mtime = get_file_mtime(path)\n"))
